@@ -22,7 +22,7 @@ SPECIAL_EPOCHS = [
 ]
 BASE_HOST = {"epoch_ns": 1_700_000_000 * 10**9, "tick_ns": 1_000_000, "jumps": [], "TZ": "UTC", "LANG": "C.UTF-8", "LC_ALL": None,
              "LANGUAGE": None, "LOG_LEVEL": None, "profiler": False, "hashseed": 0, "aslr": False, "random_seed": 0,
-             "user": None, "hostname": None, "columns": None, "umask": None, "sched_seed": 0, "tty": False, "extra_env": None}
+             "user": None, "hostname": None, "columns": None, "umask": None, "sched_seed": 0, "tty": False, "extra_env": None, "helper_programs": None}
 
 
 def case_seed(master, prop, index):
